@@ -93,7 +93,11 @@ Stmts1(e) == {
   Asg(":=", <<A>>, <<N("CompositeLit", "", <<TId, N("KeyValueExpr", "", <<A, e>>), N("KeyValueExpr", "", <<Bb, One>>)>>)>>),
   Asg(":=", <<A>>, <<N("SliceLit", "", <<e, One, Lit("2")>>)>>),
   Asg(":=", <<A>>, <<N("ErrWrapExpr", "?", <<CallF(<<e>>), One>>)>>),
-  Asg(":=", <<A>>, <<N("SliceExpr", "", <<A, e, Bb, Nil>>)>>) }
+  Asg(":=", <<A>>, <<N("SliceExpr", "", <<A, e, Bb, Nil>>)>>),
+  \* an errwrap operand directly in front of an operator / "=" (`f(e)! == 1` must not become `f(e)!==1`)
+  Asg(":=", <<A>>, <<Bin("==", N("ErrWrapExpr", "!", <<CallF(<<e>>)>>), One)>>),
+  N("IfStmt", "", <<Nil, Bin("!=", N("ErrWrapExpr", "!", <<CallF(<<e>>)>>), Bb), Body(A), Nil>>),
+  Asg("=", <<N("IndexExpr", "", <<A, N("ErrWrapExpr", "!", <<CallF(<<e>>)>>)>>)>>, <<One>>) }
 StmtSet == UNION {Stmts1(e) : e \in Pool}
 \* a declaration at the top level of a script is a declaration of the file, not a statement of the shadow main
 TopStmts == {s \in StmtSet : s.k # "DeclStmt"}
